@@ -25,7 +25,8 @@
 (*    simple behaviour: a simple master offers address and data together   *)
 (*    without gaps and is always ready for responses; a simple slave is    *)
 (*    always ready and answers at once), mlens / mids (per master: 0 / 1 = *)
-(*    only that burst length / id, 2 = both), earlyw, xslave (MasterMoves) *)
+(*    only that burst length / id, 2 = both), earlyw, xslave, gaps         *)
+(*    (MasterMoves)                                                        *)
 (* Environment assumptions (AXI4): offers are held with their payload      *)
 (* until accepted; a master sends its write data bursts in the order of    *)
 (* its addresses (there is no WID) with exactly len+1 beats; a slave       *)
@@ -45,12 +46,14 @@ VARIABLES ah,    \* per master: the address offer it holds <<tgt, len, id>> (<<>
           qw,    \* per slave: complete write data bursts accepted and not yet answered
           qp,    \* per slave: 1 while a write data burst is in progress (latest beat had no `last`)
           rh,    \* per slave: 1 if it holds a response offer
+          gp,    \* per master (c.gaps = 1 only): 1 in the cycle after its last outstanding burst was answered: it pauses
+          tr,    \* per master (c.gaps = 1 only): bursts it has issued since its last pause
           sav,   \* per slave: address offer <<addr, len, id>> presented by the interconnect in the previous cycle and not accepted
           swv,   \* per slave: data offer <<tag, last>> likewise
           mrv,   \* per master: response offer <<tag, id, last>> presented by the interconnect and not accepted
           obs
 
-cvars == <<ah, wh, aq, rb, wq, qa, sb, qw, qp, rh, sav, swv, mrv, obs>>
+cvars == <<ah, wh, aq, rb, wq, qa, sb, qw, qp, rh, gp, tr, sav, swv, mrv, obs>>
 
 MAXN == 3
 NMO == 6   \* output fields per master
@@ -99,8 +102,11 @@ WOpen(i) == wq[i] # <<>> /\ wq[i][Len(wq[i])][3] = 0
 
 \* c.earlyw = 0: a master offers the first data beat of a burst only together with or after its address offer
 \* c.xslave = 0: a master does not address another slave while it has unanswered bursts
+\* c.gaps = 1: traffic with gaps - a master issues at most c.k bursts in a row, then waits for all its responses
+\*   and pauses for one cycle (what a round-robin arbiter that only moves on an idle bus needs to be fair);
+\*   c.gaps = 0: any traffic, including back-to-back bursts for ever
 MasterMoves(c, i) ==
-  LET canA == Len(aq[i]) < c.k
+  LET canA == Len(aq[i]) < c.k /\ gp[i] = 0 /\ (c.gaps = 1 => tr[i] < c.k)
       Tgts == IF c.xslave = 1 \/ aq[i] = <<>> THEN Slaves(c) ELSE { aq[i][1][1] }
       \* an address that follows its (early) data names the length that data had
       ai   == Len(aq[i]) + 1
@@ -120,7 +126,7 @@ MasterMoves(c, i) ==
                   ELSE IF WOpen(i) THEN { <<1>> }                     \* the second and last beat
                   ELSE IF Len(wq[i]) >= c.k THEN {}
                   ELSE IF known(a) THEN { <<IF wlen(a) = 0 THEN 1 ELSE 0>> }
-                  ELSE IF c.earlyw = 1 /\ c.mfree[i] = 1 THEN { <<1 - l>> : l \in Lens(c, i) }
+                  ELSE IF c.earlyw = 1 /\ c.mfree[i] = 1 /\ gp[i] = 0 THEN { <<1 - l>> : l \in Lens(c, i) }
                   ELSE {}
       WOpts(a) == IF wh[i] # <<>> THEN { wh[i] }
                   ELSE IF c.mfree[i] = 1 THEN { <<>> } \cup Beats(a)
@@ -161,10 +167,11 @@ CInit ==
   /\ qa = [j \in 1..MAXN |-> <<>>] /\ sb = [j \in 1..MAXN |-> 0]
   /\ qw = [j \in 1..MAXN |-> 0] /\ qp = [j \in 1..MAXN |-> 0]
   /\ rh = [j \in 1..MAXN |-> 0]
+  /\ gp = [i \in 1..MAXN |-> 0] /\ tr = [i \in 1..MAXN |-> 0]
   /\ sav = [j \in 1..MAXN |-> <<>>] /\ swv = [j \in 1..MAXN |-> <<>>]
   /\ mrv = [i \in 1..MAXN |-> <<>>]
   /\ obs = [okroute |-> TRUE, okw |-> TRUE, okonce |-> TRUE, okresp |-> TRUE, okfrozen |-> TRUE,
-            okhold |-> TRUE, okholdw |-> TRUE, prog |-> [i \in 1..MAXN |-> TRUE], idle |-> [i \in 1..MAXN |-> TRUE], fair |-> TRUE]
+            okhold |-> TRUE, okholdw |-> TRUE, prog |-> [i \in 1..MAXN |-> TRUE], fair |-> TRUE]
 
 CStep(c, iv, o) ==
   LET \* ---- handshakes seen at the masters
@@ -275,6 +282,10 @@ CStep(c, iv, o) ==
   /\ qp' = [j \in 1..MAXN |-> IF j \notin Slaves(c) THEN 0
                               ELSE IF sWfire(j) THEN 1 - OWl(c, o, j) ELSE qp[j]]
   /\ rh' = [j \in 1..MAXN |-> IF j \in Slaves(c) /\ sRvalid(j) /\ ~sRfire(j) THEN 1 ELSE 0]
+  /\ gp' = [i \in 1..MAXN |-> IF i \in Masters(c) /\ c.gaps = 1 /\ mDone(i) /\ aq1[i] = <<>>
+                                  /\ (HasW(c) => wq1(i) = <<>>) /\ MAv(iv, i) = 0 /\ MWv(iv, i) = 0 THEN 1 ELSE 0]
+  /\ tr' = [i \in 1..MAXN |-> IF i \notin Masters(c) \/ c.gaps = 0 \/ gp[i] = 1 THEN 0
+                              ELSE IF MAv(iv, i) = 1 /\ ah[i] = <<>> THEN tr[i] + 1 ELSE tr[i]]   \* a new address offer
   /\ sav' = [j \in 1..MAXN |-> IF j \in Slaves(c) /\ OAv(c, o, j) = 1 /\ ~sAfire(j)
                                THEN <<OAa(c, o, j), OAl(c, o, j), OAi(c, o, j)>> ELSE <<>>]
   /\ swv' = [j \in 1..MAXN |-> IF j \in Slaves(c) /\ OWv(c, o, j) = 1 /\ ~sWfire(j)
@@ -285,7 +296,6 @@ CStep(c, iv, o) ==
              okfrozen |-> okfrozen, okhold |-> okhold, okholdw |-> okholdw,
              \* master i made progress in this cycle (some handshake) or has nothing pending
              prog |-> [i \in 1..MAXN |-> i \notin Masters(c) \/ mAfire(i) \/ mWfire(i) \/ mRfire(i) \/ nothing(i)],
-             idle |-> [i \in 1..MAXN |-> i \notin Masters(c) \/ nothing(i)],
              \* cooperation in this cycle: slaves ready whenever they have room and answering whenever they owe a
              \* response, masters accepting responses and not withholding the other half of a write
              fair |-> /\ \A j \in Slaves(c) : /\ (SCanA(c, j) => SAr(c, iv, j) = 1)
